@@ -62,17 +62,26 @@ func BuildGocc(root string, withSim bool) (*Gocc, error) {
 	if err := scratch.CopyInject("simrt", filepath.Join(g.Copy, "internal", "verifsim", "simrt"), injectPrefix); err != nil {
 		return nil, err
 	}
+	coop := map[string]string{}
+	for std, name := range map[string]string{"sync": "simsync", "runtime": "simruntime"} {
+		if err := scratch.CopyInject(name, filepath.Join(g.Copy, "internal", "verifsim", name), injectPrefix); err != nil {
+			return nil, err
+		}
+		coop[std] = injectPrefix + "/" + name
+	}
 	c, err := rewrite.Instrument(rewrite.Options{
-		Dir:         g.Copy,
-		Patterns:    []string{"."},
-		OwnPrefix:   GoccModule,
-		SkipPrefix:  []string{injectPrefix},
-		Redirect:    redirect,
-		RTImport:    injectPrefix + "/simrt",
-		StepFunc:    "Tick",
-		MapRanges:   true,
-		DeferAtExit: true,
-		Env:         scratch.GoEnv(),
+		Dir:          g.Copy,
+		Patterns:     []string{"."},
+		OwnPrefix:    GoccModule,
+		SkipPrefix:   []string{injectPrefix},
+		Redirect:     redirect,
+		RTImport:     injectPrefix + "/simrt",
+		StepFunc:     "Tick",
+		MapRanges:    true,
+		DeferAtExit:  true,
+		CoopGo:       true,
+		CoopRedirect: coop,
+		Env:          scratch.GoEnv(),
 	})
 	if err != nil {
 		return nil, fmt.Errorf("instrument gocc: %w", err)
